@@ -143,10 +143,22 @@ Proof.
   - intros b. split; [apply repeat_length|]. unfold bytes. apply Forall_forall. intros x Hx.
     apply repeat_spec in Hx. subst. reflexivity.
   - assert (NB : spec_capacity_blocks [0;38;0;50;95;89;128;1;237;216;79;255;210;64;64;91] = 32) by (vm_compute; reflexivity).
-    repeat constructor; unfold legal_call; cbn [rejected idx_of in_range]; rewrite ?NB; cbn [N.ltb N.compare negb]; cbn [in_range]; rewrite ?NB;
-      try reflexivity; try (vm_compute; discriminate);
-      try apply repeat_length;
-      try (unfold bytes; apply Forall_forall; intros x Hx; apply repeat_spec in Hx; subst; reflexivity).
+    assert (B7 : block_ok (repeat 7 512)).
+    { split; [apply repeat_length|]. unfold bytes. apply Forall_forall. intros x Hx. apply repeat_spec in Hx. subst. reflexivity. }
+    assert (L : forall c, (rejected [0;38;0;50;95;89;128;1;237;216;79;255;210;64;64;91] c = false /\
+                           in_range [0;38;0;50;95;89;128;1;237;216;79;255;210;64;64;91] c) \/
+                          (rejected [0;38;0;50;95;89;128;1;237;216;79;255;210;64;64;91] c = true /\ idx_of c < 2 ^ 32) ->
+                          legal_call [0;38;0;50;95;89;128;1;237;216;79;255;210;64;64;91] c).
+    { intros c [[R I]|[R I]]; unfold legal_call; rewrite R; exact I. }
+    repeat apply Forall_cons; try apply Forall_nil; apply L; cbn [rejected idx_of in_range]; rewrite ?NB.
+    + left. split; [reflexivity|]. split; reflexivity || discriminate.
+    + left. split; [reflexivity|]. split; [repeat constructor; exact B7|]. split; reflexivity || discriminate.
+    + left. split; [reflexivity|]. split; reflexivity || discriminate.
+    + left. split; [reflexivity|exact I].
+    + left. split; [reflexivity|exact I].
+    + left. split; [reflexivity|exact I].
+    + right. split; reflexivity.
+    + right. split; reflexivity.
 Qed.
 
 Print Assumptions C12_csd_fields.
